@@ -727,7 +727,7 @@ func runC10(t fataler, c c10Case) (string, c10Result) {
 func TestC10(t *testing.T) {
 	rec := evid.For("C10")
 	rec.Rule = "rapid-generated programs of 3-10 operations {read of a message with 1-4 fragments, optional interleaved control frames, optional compression, in a quarter of the reads a Ping from the peer in front of the message while the peer takes no bytes for 0/300ms/2s so that the Pong leaves late; write of 0..70000 bytes; Ping with the Pong delayed 0/1ms/2s and a reader running beside it; a Write whose deadline (1ms/100ms/3s) expires while it WAITS for another goroutine's open Writer message, followed by a third Write with a live context that must keep waiting, with the frames on the wire checked}, each with its OWN context: already cancelled before the call (last op only; afterwards Write and Read probes with live contexts must return at once), cancelled 0/1ms/1s/1h after the call returned, or a deadline of 5s/1h that expires later, or (last op only) cancelled / expiring DURING the call while synctest.Wait() confirms it is blocked in a header read, payload read, between fragments, a frame write against a zero window, waiting for a withheld Pong, a read that took in an unsolicited Pong while another goroutine's Ping is stuck in the transport, or a Ping queued behind such a stuck Ping; pauses between ops let timers fire; both roles, with and without compression, in virtual time. Non-trivial: >=1 context ended after a successful multi-frame / control-interleaved / ping operation that is followed by a further operation. distinct = hash(mode, op shapes, context kinds and delays)."
-	rapid.Check(t, func(rt *rapid.T) {
+	checkProp(t, func(rt *rapid.T) {
 		c := genC10(rt)
 		var msg string
 		var res c10Result
